@@ -534,6 +534,20 @@ class InheritableSQLObject(SQLObject):
         conn = connection or cls._connection
         return cls.SelectResultsClass(cls, clause, connection=conn)
 
+    @classmethod
+    def deleteMany(cls, where=sqlbuilder.NoDefault, connection=None):
+        # A raw DELETE would remove the rows of this level only;
+        # destroySelf() removes the rows of every level
+        if where is sqlbuilder.NoDefault:
+            where = None
+        for obj in list(cls.select(where, connection=connection)):
+            obj.destroySelf()
+
+    @classmethod
+    def deleteBy(cls, connection=None, **kw):
+        for obj in list(cls.selectBy(connection=connection, **kw)):
+            obj.destroySelf()
+
     def destroySelf(self):
         # DSM: If this object has parents, recursivly kill them
         if hasattr(self, '_parent') and self._parent:
